@@ -131,11 +131,13 @@ class Gen:
                     # documented limitation of back: the deferred event must not be handled by the same state,
                     # nor anywhere in a sibling region (including submachines there), nor in the sm-internal table
                     handled = trig_events([r for r in rows if r["src"] == i]) | trig_events(st["sirows"]) | trig_events(irows)
-                    for j, other in enumerate(states):
-                        if other["zone"] != z:
-                            handled |= trig_events([r for r in rows if r["src"] == j]) | trig_events(other["sirows"])
-                            if other["sub"] is not None:
-                                handled |= machine_events(other["sub"])
+                    if rng.random() < 0.6:
+                        # most of the time keep to the static form of the limitation: not handled anywhere in a sibling region
+                        for j, other in enumerate(states):
+                            if other["zone"] != z:
+                                handled |= trig_events([r for r in rows if r["src"] == j]) | trig_events(other["sirows"])
+                                if other["sub"] is not None:
+                                    handled |= machine_events(other["sub"])
                     cand = [e for e in self.events if e not in handled]
                     if cand:
                         st["defers"] = rng.sample(cand, 1)
@@ -192,6 +194,25 @@ class Gen:
                 ops.append(("start", self.val(gids), []))
             else:
                 ops.append(("process", rng.choice(self.events), pay, self.val(gids), self.gen_plan()))
+        return ops
+
+    def gen_ops_queue(self, md, n):
+        """operation lists aimed at the queue: bursts of enqueue_event followed by single steps and full drains"""
+        rng = self.rng
+        gids = self.guard_ids(md)
+        ops = [("start", self.val(gids), [])]
+        pay = 200
+        while len(ops) < n:
+            k = rng.randint(1, 4)
+            for _ in range(k):
+                pay += 1
+                ops.append(("enqueue", rng.choice(self.events), pay))
+            for _ in range(rng.randint(0, k)):
+                ops.append(("drain1", self.val(gids), self.gen_plan()))
+            if rng.random() < 0.6:
+                ops.append(("drain", self.val(gids), self.gen_plan()))
+            pay += 1
+            ops.append(("process", rng.choice(self.events), pay, self.val(gids), self.gen_plan()))
         return ops
 
     def val(self, gids):
